@@ -687,7 +687,7 @@ func classify(cs *Case, o *outcome) string {
 			return t == "anti-join-over-empty-join" || t == "semi-and-anti-join-in-one-filter"
 		case strings.HasPrefix(kind, "engine-error[of-range-value"):
 			return t == "decimal-literal-compared-with-product"
-		case strings.HasPrefix(kind, "engine-error[unable-to-sort"):
+		case strings.HasPrefix(kind, "engine-error[unable-to-sort"), strings.HasPrefix(kind, "engine-error[incorrect-value"):
 			return t == "distinct-order-by-position"
 		case kind == "wrong-rows", kind == "spurious-cardinality-error":
 			return !strings.HasPrefix(t, "having-") && !strings.Contains(t, "anti-join")
